@@ -89,14 +89,25 @@ def rederive_known(k):
 class BodyGen(gens.ProcGen):
     """ProcGen plus body vocabulary that several seeded changes needed and no generator produced (all of it is split
     correctly by the unchanged library): GOTO, EXECUTE IMMEDIATE, COMMIT WORK / START TRANSACTION, DDL inside a body
-    (TRUNCATE / DROP / ALTER) in front of a control construct, the IF() function, and IF [NOT] EXISTS (subquery) THEN."""
+    (TRUNCATE / DROP / ALTER) in front of a control construct, the IF() function, IF [NOT] EXISTS (subquery) THEN, MySQL
+    condition handlers and nested CASE expressions."""
 
     def simple_stmt(self):
         from gens import kw, nm, WS0, WS1
         r = self.r.random()
-        if r >= 0.16:
+        if r >= 0.2:
             return super().simple_stmt()
-        k = int(r / 0.16 * 8)
+        k = int(r / 0.2 * 10)
+        if k == 8:
+            # MySQL condition handlers, with and without the action word
+            act = self.r.choice([[kw('EXIT'), WS1], [kw('CONTINUE'), WS1], [kw('UNDO'), WS1], []])
+            return [kw('DECLARE'), WS1] + act + [kw('HANDLER FOR'), WS1, nm('SQLEXCEPTION'), WS1, kw('SET'), WS1, nm('x'), WS1,
+                                                 ('op', '='), WS1, ('lit', '1')]
+        if k == 9:
+            # a CASE expression nested in another one
+            return [kw('SET'), WS1, nm('x'), WS1, ('op', '='), WS1, kw('CASE'), WS1, kw('WHEN'), WS1, nm('b'), WS1, kw('THEN'), WS1,
+                    kw('CASE'), WS1, kw('WHEN'), WS1, nm('c'), WS1, kw('THEN'), WS1, ('lit', '1'), WS1, kw('ELSE'), WS1, ('lit', '2'),
+                    WS1, kw('END'), WS1, kw('ELSE'), WS1, ('lit', '3'), WS1, kw('END')]
         if k == 0:
             return [kw('GOTO'), WS1, nm('lbl')]
         if k == 1:
